@@ -573,6 +573,32 @@ func judgeCache(w *cacheWorld, res *Result, snaps []*cacheSnapshot) {
 		checkLinearizable(w, res, okPut, sig)
 	}
 
+	// C13.e (overwrite-in-window family): a cleanup cycle never removes a fresh entry
+	if p.Family == "expwin" {
+		for ci, sn := range snaps {
+			for k := range w.keys {
+				var last *cev
+				for _, e := range w.hist {
+					if e.Op.Key == k && e.Op.Kind == "put" && e.Done && e.Err == nil && (last == nil || e.Ret > last.Ret) {
+						last = e
+					}
+				}
+				if last == nil || last.Op.TTLMs < 1000000 {
+					continue
+				}
+				res.Evals++
+				if _, ok := sn.Present[k]; !ok {
+					res.violate("C13.e", p.Backend+" fresh-overwrite-removed-by-cleanup", "k%d was stored again with a long lifetime (version %d, after its earlier version had expired) and the cache is far below its limit, but at checkpoint %d it is gone: a cleanup cycle removed a fresh entry [%s]", k, last.Op.Ver, ci, sig)
+				}
+			}
+		}
+		if metrics.Global.Cache.CleanupRuns.Get() > 0 {
+			res.Probes["cleanup_cycles"] += int(metrics.Global.Cache.CleanupRuns.Get())
+		}
+		res.Nontrivial = true
+		return
+	}
+
 	// C12 at the checkpoints
 	for ci, sn := range snaps {
 		where := "quiescent"
@@ -917,6 +943,39 @@ func genCachePlan(r *rand.Rand, family string) *CachePlan {
 	return p
 }
 
+// genExpWinPlan: every actor owns one key, stores it with a short lifetime, waits until it
+// has expired and stores it again with a long one, while the janitor ticks at about the
+// same instants: the overwrite can land between the janitor's expiry scan and its removal.
+func genExpWinPlan(r *rand.Rand) *CachePlan {
+	p := &CachePlan{Family: "expwin"}
+	p.Backend = []string{"memory", "file"}[r.IntN(2)]
+	p.Shards = []int{1, 2, 16}[r.IntN(3)]
+	p.NKeys = 1 + r.IntN(3)
+	p.KeySalt = r.IntN(1000)
+	p.MaxSize = 1 << 40
+	p.IntervalMs = []int64{10, 20, 50}[r.IntN(3)]
+	p.Pol = genPolicy(r, false)
+	p.Pol.Mute = []string{"", "R6", "R7"}[r.IntN(3)]
+	p.Pol.MaxSteps = 8000
+	ver := 0
+	for a := 0; a < p.NKeys; a++ {
+		var ops []COp
+		rounds := 1 + r.IntN(3)
+		for i := 0; i < rounds; i++ {
+			ver++
+			ops = append(ops, COp{Kind: "put", Key: a, Ver: ver, Size: []int{10, 300, 5000}[r.IntN(3)], TTLMs: 1 + int64(r.IntN(5))})
+			// wake up close to a tick boundary, after the short lifetime has passed
+			ops = append(ops, COp{Kind: "wait", WaitMs: p.IntervalMs*int64(1+r.IntN(2)) - int64(r.IntN(3))})
+			ver++
+			ops = append(ops, COp{Kind: "put", Key: a, Ver: ver, Size: []int{10, 300, 5000}[r.IntN(3)], TTLMs: 360000000})
+			ops = append(ops, COp{Kind: "wait", WaitMs: int64(r.IntN(int(p.IntervalMs)))})
+		}
+		p.Actors = append(p.Actors, ops)
+	}
+	p.SettleTick = true
+	return p
+}
+
 func shrinkCachePlan(planAny any) []any {
 	p := planAny.(*CachePlan)
 	var out []any
@@ -982,6 +1041,7 @@ func shrinkCachePlan(planAny any) []any {
 }
 
 func init() {
+	register(&Scenario{Name: "cache-expwin", Gen: func(r *rand.Rand, tier string) any { return genExpWinPlan(r) }, Decode: decodeInto[CachePlan], Run: runCachePlan, Shrink: shrinkCachePlan})
 	for _, fam := range []string{"lin", "linfault", "cnt", "cntdisk", "stress"} {
 		fam := fam
 		register(&Scenario{
